@@ -142,6 +142,7 @@ func (s *Scenario) Validate() error {
 				if o.Fault != nil {
 					return fmt.Errorf("scenario: %s: rekeyquery takes no fault", where)
 				}
+			case "churn":
 			case "scan", "unmarshal":
 				if o.Path2 < 0 || o.Path2 >= len(s.Paths) {
 					return fmt.Errorf("scenario: %s: bad path2 index", where)
